@@ -60,6 +60,8 @@ def build_app(kind, size):
                 resp.set_header('X-Res', self.name)
 
             def on_post(self, req, resp, **kw):
+                # application code annotating ITS OWN request's parameter mapping
+                req.params.setdefault('_by', req.get_header('X-Rid'))
                 resp.media = dict(observe(req, kw, req.get_media(default_when_empty=None)), res=self.name)
 
         class Err:
@@ -78,7 +80,21 @@ def build_app(kind, size):
         def handle(req, resp, ex, params):
             resp.status = 418
             resp.media = {'handled': str(ex), 'rid': getattr(req.context, 'rid', None)}
-        app = falcon.App(middleware=[MW()] if size == 'full' else None)
+        class Auth:
+            def process_request(self, req, resp):
+                if req.get_header('X-Deny'):
+                    raise falcon.HTTPUnauthorized(title='denied')
+
+            def process_response(self, req, resp, resource, ok):
+                resp.set_header('X-Auth-Seen', '1')
+
+        class Tail:
+            def process_response(self, req, resp, resource, ok):
+                resp.set_header('X-Tail', str(ok))
+        if size == 'dep':
+            app = falcon.App(middleware=[MW(), Auth(), Tail()], independent_middleware=False)
+        else:
+            app = falcon.App(middleware=[MW()] if size == 'full' else None)
     else:
         class Echo:
             def __init__(self, name):
@@ -89,6 +105,7 @@ def build_app(kind, size):
                 resp.set_header('X-Res', self.name)
 
             async def on_post(self, req, resp, **kw):
+                req.params.setdefault('_by', req.get_header('X-Rid'))
                 resp.media = dict(observe(req, kw, await req.get_media(default_when_empty=None)), res=self.name)
 
         class Err:
@@ -107,10 +124,24 @@ def build_app(kind, size):
         async def handle(req, resp, ex, params):
             resp.status = 418
             resp.media = {'handled': str(ex), 'rid': getattr(req.context, 'rid', None)}
-        app = falcon.asgi.App(middleware=[MW()] if size == 'full' else None)
+        class Auth:
+            async def process_request(self, req, resp):
+                if req.get_header('X-Deny'):
+                    raise falcon.HTTPUnauthorized(title='denied')
+
+            async def process_response(self, req, resp, resource, ok):
+                resp.set_header('X-Auth-Seen', '1')
+
+        class Tail:
+            async def process_response(self, req, resp, resource, ok):
+                resp.set_header('X-Tail', str(ok))
+        if size == 'dep':
+            app = falcon.asgi.App(middleware=[MW(), Auth(), Tail()], independent_middleware=False)
+        else:
+            app = falcon.asgi.App(middleware=[MW()] if size == 'full' else None)
     app.add_route('/a/{x}', Echo('a'))
     app.add_route('/b/{y:int}', Echo('b'))
-    if size == 'full':
+    if size in ('full', 'dep'):
         app.add_route('/c/{p}-{q}', Echo('c'))
         app.add_route('/a/{x}/d/{z:int(2)}', Echo('d'))
         app.add_route('/e/{code:int}', Err())
@@ -133,6 +164,9 @@ REQS = {
                body=b'{"n": [2, 2]}'),
     'f1': dict(method='POST', raw_path='/a/8', query='', headers=[('X-Rid', 'r-f1'), ('Content-Type', 'application/x-www-form-urlencoded'),
                                                                   ('Accept', 'text/plain, */*;q=0.5')], body=b'n=1&m=two'),
+    'pq': dict(method='POST', raw_path='/a/5', query='k=1', headers=[('X-Rid', 'r-pq'), ('Content-Type', 'application/json')],
+               body=b'{"q": true}'),
+    'deny': dict(method='GET', raw_path='/b/4', query='', headers=[('X-Rid', 'r-deny'), ('X-Deny', '1')]),
     'o': dict(method='OPTIONS', raw_path='/a/1', query='', headers=[('X-Rid', 'r-o')]),
     'm': dict(method='DELETE', raw_path='/b/3', query='', headers=[('X-Rid', 'r-m')]),
     'nf': dict(method='GET', raw_path='/nope', query='', headers=[('X-Rid', 'r-nf')]),
@@ -458,9 +492,11 @@ def plan(tier, seed):
                     ('full', ('c', 'd'), 'router', 1), ('small', ('a1', 'b2', 'nf'), 'router', 1),
                     # one preemption at ANY line of the framework, on a warm router: requests using different media types,
                     # Accept headers, error paths (shared resolver / negotiation caches, per-request objects)
-                    ('full', ('p1', 'f1'), 'all', 1), ('full', ('e2', 'b2'), 'all', 1)]
-        aio_cfgs = [('full', ('a1', 'b2'), False), ('full', ('p1', 'p2'), False), ('full', ('p1', 'e1'), True), ('full', ('c', 'e2'), False)]
-        names = ['a1', 'b2', 'c', 'e1', 'e2', 'p1', 'o', 'nf']
+                    ('full', ('p1', 'f1'), 'all', 1), ('full', ('e2', 'b2'), 'all', 1), ('full', ('pq', 'a1'), 'all', 1)]
+        aio_cfgs = [('full', ('a1', 'b2'), False), ('full', ('p1', 'p2'), False), ('full', ('p1', 'e1'), True), ('full', ('c', 'e2'), False),
+                    # dependent middleware mode: a request rejected half-way down the stack while another is parked at an await
+                    ('dep', ('p1', 'deny'), True), ('dep', ('deny', 'p2'), True)]
+        names = ['a1', 'b2', 'c', 'e1', 'e2', 'p1', 'pq', 'nf']
         perm_k = 3
     else:
         thr_cfgs = [('small', ('a1', 'b2'), 'router', 3), ('small', ('a1', 'b2', 'nf'), 'router', 2), ('full', ('c', 'd'), 'router', 2),
@@ -468,7 +504,8 @@ def plan(tier, seed):
                     ('full', ('p1', 'f1'), 'all', 1), ('full', ('e2', 'b2'), 'all', 1), ('full', ('f1', 'p2'), 'all', 1),
                     ('full', ('a1', 'p1', 'f1'), 'all', 1), ('full', ('o', 'm'), 'all', 1)]
         aio_cfgs = [('full', ('a1', 'b2'), False), ('full', ('p1', 'p2'), True), ('full', ('p1', 'e1'), True), ('full', ('c', 'e2'), False),
-                    ('full', ('a1', 'p1', 'e2'), False), ('full', ('p1', 'p2', 'nf'), False)]
+                    ('full', ('a1', 'p1', 'e2'), False), ('full', ('p1', 'p2', 'nf'), False),
+                    ('dep', ('p1', 'deny'), True), ('dep', ('deny', 'p2'), True), ('dep', ('p1', 'deny', 'a1'), True)]
         names = list(REQS)
         perm_k = 4
     if seed % 2:
@@ -481,6 +518,9 @@ def plan(tier, seed):
                     if k == perm_k and tier == 'thorough' and not (set(order) & {'p1', 'e1', 'b2', 'a1'}):
                         continue
                     seq_jobs.append((kind, 'full', order + (order[0],), warm))
+    for kind in ('wsgi', 'asgi'):
+        for order in itertools.permutations(['p1', 'deny', 'a1', 'pq'], 3):
+            seq_jobs.append((kind, 'dep', order + (order[0],), True))
     return thr_cfgs, aio_cfgs, seq_jobs
 
 
